@@ -1,10 +1,10 @@
 import Cvss.Base.Go
 import Cvss.Gen.V20
 set_option linter.unusedVariables false
-/-! GENERATED from /repo/20 (parser mode) — do not edit -/
+/-! GENERATED from package 20 (parser mode) — do not edit -/
 namespace GenP20
 
-/-- split: body of the loop at /repo/20/cvss20.go:84:2 -/
+/-- split: body of the loop at cvss20.go -/
 def split_for1 (vector : (List Nat)) : ((List (List Nat)) × Nat × Nat × Nat) → Go.Ctl ((List (List Nat)) × Nat × Nat × Nat) (Option ((List (List Nat)) × Nat))
   | (dst, start, curr, i) =>
     Go.index vector i (Go.Ctl.ret none) fun t0 =>
@@ -18,7 +18,7 @@ def split_for1 (vector : (List Nat)) : ((List (List Nat)) × Nat × Nat × Nat) 
         (Go.Ctl.next (dst, start, curr, i)))
       (Go.Ctl.next (dst, start, curr, i))
 
-/-- split  (/repo/20/cvss20.go:79:1)
+/-- split  (cvss20.go)
     result: `none` = panic; `some (dst, results…)` -/
 def split (dst : (List (List Nat))) (vector : (List Nat)) : (Option ((List (List Nat)) × Nat)) :=
   let start := (0 : Nat)
@@ -36,7 +36,7 @@ def split (dst : (List (List Nat))) (vector : (List Nat)) : (Option ((List (List
   Go.setIndex dst curr t2 (none) fun dst =>
   some (dst, curr)
 
-/-- ParseVector: body of the loop at /repo/20/cvss20.go:35:2 -/
+/-- ParseVector: body of the loop at cvss20.go -/
 def ParseVector_range1 (pt : (List Nat)) : (Nat × Nat × Nat × Nat × Nat × Nat) → Go.Ctl (Nat × Nat × Nat × Nat × Nat × Nat) (Go.Res (Nat × Nat × Nat × Nat))
   | (slci, u0, u1, u2, u3, i) =>
     match (Go.cut pt ([58] : List Nat) /- : -/) with
@@ -102,7 +102,7 @@ def ParseVector_range1 (pt : (List Nat)) : (Nat × Nat × Nat × Nat × Nat × N
             Go.Ctl.next (slci, u0, u1, u2, u3, i)))))
      (Go.Ctl.ret (Go.Res.err (Go.Err.mk 4 []) /- ErrInvalidMetricValue -/)))
 
-/-- ParseVector  (/repo/20/cvss20.go:17:1)
+/-- ParseVector  (cvss20.go)
     result: `Go.Res.ok fields` = `return obj, nil`; `Go.Res.err e` = `return nil, e`; `Go.Res.panic`
     `buf` is what the sync.Pool hands out (stale content of earlier calls) -/
 def ParseVector (buf : (List (List Nat))) (vector : (List Nat)) : (Go.Res (Nat × Nat × Nat × Nat)) :=
